@@ -8,6 +8,8 @@ different allocator perturbation, the output files being byte-compared."""
 import os, json, shutil, hashlib, re
 import vlib, femgen, femmrun, geomgen
 
+# theorems about the renumbering model Renumber.v that belong to this property (its correspondence runs with C02: props/xcm.py)
+EXTRA_PROPERTY_FILES = ["C08_renumber"]
 LEVEL = "proof"
 COQ_MODULES = []
 ASSUMPTIONS = [
